@@ -210,6 +210,7 @@ func (x *Exec) store(pv Value, val Value) {
 	if x.merge != nil && p.Obj.ID <= x.merge.objLim {
 		x.Unsupported("side effect inside a merged pure callee")
 	}
+	x.procWrite(p.Obj)
 	p.Obj.Val = x.update(p.Obj.Val, p.Path, val)
 }
 
@@ -855,6 +856,7 @@ func (x *Exec) mapUpdate(m Value, k, v Value) {
 		panic(goPanic{Msg: "assignment to entry in nil map"})
 	}
 	md := mv.Obj.Val.(*MapData)
+	x.procWrite(mv.Obj)
 	for i := range md.Entries {
 		if x.keyEqual(md.Entries[i].K, k) {
 			md.Entries[i].V = v
